@@ -104,7 +104,7 @@ void harness(void) {
 	uint64_t q; VP_INPUT(q);
 	{ int i = lookup(q); uint8_t *p = rx_find(&T, q);
 	  VP_ASSERT((p != 0) == (i >= 0 && rp[i]), "find() of an arbitrary key: non-null exactly for present keys (no phantom, no lost key)");
-	  if(p) VP_ASSERT(p == ra[i], "find() returns the address handed out at insertion"); }
+	  if(p && i >= 0) VP_ASSERT(p == ra[i], "find() returns the address handed out at insertion"); }
 #ifndef NO_ITER
 	/* (iii) iteration: exactly the present keys' values, once each, ascending key order */
 	uint8_t *out[K + 1]; unsigned cnt = rx_iterate(&T, out, K + 1);
